@@ -42,15 +42,19 @@ class CallGraph:
                     t = F.ty(it["ty"])
                     if t and t.get("k") == "adt":
                         self.alias_values.setdefault(it["trait_item"], set()).add(t["path"])
-        self.edges = {}  # path -> set(local callee paths)
+        self.edges = {}  # path -> set(local callee paths): resolved calls, local trait dispatch, closures, fn items
+        self.cb_edges = {}  # speculative callbacks from external generic code into local trait impls
         self.ext = {}  # path -> set((ext path, krate))
         self.unknown = {}  # path -> set(description) for indirect / foreign-trait-on-param calls
         for p, b in self.nodes.items():
             self._scan(b)
 
-    def _add(self, src, dst):
+    def _add(self, src, dst, speculative=False):
         if dst in self.nodes:
-            self.edges.setdefault(src, set()).add(dst)
+            if speculative:
+                self.cb_edges.setdefault(src, set()).add(dst)
+            else:
+                self.edges.setdefault(src, set()).add(dst)
             return True
         return False
 
@@ -143,7 +147,7 @@ class CallGraph:
             if t.get("krate") == "tlsh":
                 for tr, m in self.methods_of_adt.get(t["path"], []):
                     if tr in CALLBACK_TRAITS:
-                        self._add(src, m)
+                        self._add(src, m, speculative=True)
             for a in t.get("args", []):
                 if a.get("k") == "ty":
                     self._type_callbacks(src, F.ty(a["ty"]), depth + 1)
@@ -154,7 +158,7 @@ class CallGraph:
                     continue
                 for tr, m in ms:
                     if tr in CALLBACK_TRAITS:
-                        self._add(src, m)
+                        self._add(src, m, speculative=True)
         elif k in ("ref", "ptr"):
             self._type_callbacks(src, F.ty(t["to"]), depth + 1)
         elif k in ("array", "slice"):
@@ -200,7 +204,10 @@ class CallGraph:
             self._scan_operand(src, s["b"])
 
     # ------------------------------------------------------------------
-    def reach(self, roots):
+    def all_edges(self, x):
+        return set(self.edges.get(x, ())) | set(self.cb_edges.get(x, ()))
+
+    def reach(self, roots, speculative=False):
         """{node: predecessor} for all nodes reachable from roots (BFS)."""
         prev = {}
         q = []
@@ -210,7 +217,7 @@ class CallGraph:
                 q.append(r)
         while q:
             x = q.pop(0)
-            for y in sorted(self.edges.get(x, ())):
+            for y in sorted(self.all_edges(x) if speculative else self.edges.get(x, ())):
                 if y not in prev:
                     prev[y] = x
                     q.append(y)
